@@ -7,6 +7,7 @@ CONSTANTS
  FamStreams <- FamStreamsQ  FamBase = 3  FamGroups <- FamGroupsQ
  ParkA <- ParkAQ  ParkB <- ParkBQ
  EncN <- EncNQ
+ HashU <- NoValues  HashV <- NoValues
  Volume = FALSE
  MinSteps = 1  MaxSteps = 2
 VIEW View
